@@ -1,13 +1,14 @@
 use std::collections::{BTreeMap, HashMap, HashSet};
 use std::hash::{Hash, Hasher};
-use std::ops::Add;
+use std::cell::Cell;
+use std::convert::TryFrom;
 
 use fnv::FnvHasher;
 
 use crate::data_model::Row;
 use crate::execution::{ColumnProvider, ColumnScope, ExecutionError, ExecutionResult, ExpressionTreeHash, ResultRow};
 use crate::execution::column_providers::{HashMapOwnedKeyColumnProvider, SingleColumnProvider};
-use crate::execution::expression_execution::{ExpressionExecutionEngine};
+use crate::execution::expression_execution::{EvaluationError, ExpressionExecutionEngine};
 use crate::execution::helpers::DistinctValues;
 use crate::helpers::IterExt;
 use crate::model::{Aggregate, AggregateStatement, ExpressionTree, Float, IntervalType, Value, ValueType};
@@ -453,59 +454,50 @@ impl GroupAggregator {
     pub fn update(&mut self, column_value: Value) -> ExecutionResult<Option<Value>> {
         match self {
             GroupAggregator::Sum(sum) => {
-                sum.modify_same_type_numeric_nullable(
-                    &column_value,
-                    |x, y| { *x += y },
-                    |x, y| { *x += y },
-                    |x, y| { *x = x.add(y) }
-                );
+                add_to_sum(sum, &column_value)?;
 
                 let sum = sum.clone();
                 Ok(Some(sum))
             }
             GroupAggregator::Average { sum, count } => {
-                sum.modify_same_type_numeric_nullable(
-                    &column_value,
-                    |x, y| { *x += y },
-                    |x, y| { *x += y },
-                    |x, y| { *x = x.add(y) }
-                );
+                add_to_sum(sum, &column_value)?;
                 *count += 1;
 
                 let average = sum.map_numeric(
                     |x| Some(x / *count),
                     |x| Some(x / *count as f64),
-                    |x| Some(x / *count as i32)
+                    |x| i32::try_from(*count).ok().and_then(|count| x.checked_div(count))
                 );
 
                 Ok(average)
             }
             GroupAggregator::StandardDeviation { sum, sum_square, count, is_variance } => {
+                let overflow = Cell::new(false);
                 let squared_column_value = column_value.map_numeric(
-                    |x| Some(x * x),
+                    |x| {
+                        let square = x.checked_mul(x);
+                        overflow.set(square.is_none());
+                        square
+                    },
                     |x| Some(x * x),
                     |x| {
-                        if let Some(microseconds) = x.num_microseconds() {
-                            Some(IntervalType::microseconds(microseconds * microseconds))
+                        let square = if let Some(microseconds) = x.num_microseconds() {
+                            microseconds.checked_mul(microseconds).map(|square| IntervalType::microseconds(square))
                         } else {
-                            Some(IntervalType::milliseconds(x.num_milliseconds() * x.num_milliseconds()))
-                        }
+                            x.num_milliseconds().checked_mul(x.num_milliseconds()).and_then(|square| IntervalType::try_milliseconds(square))
+                        };
+                        overflow.set(square.is_none());
+                        square
                     }
                 ).unwrap_or(Value::Null);
 
-                sum.modify_same_type_numeric_nullable(
-                    &column_value,
-                    |x, y| { *x += y },
-                    |x, y| { *x += y },
-                    |x, y| { *x = x.add(y) }
-                );
+                if overflow.get() {
+                    return Err(ExecutionError::Expression(EvaluationError::UndefinedOperation));
+                }
 
-                sum_square.modify_same_type_numeric_nullable(
-                    &squared_column_value,
-                    |x, y| { *x += y },
-                    |x, y| { *x += y },
-                    |x, y| { *x = x.add(y) }
-                );
+                add_to_sum(sum, &column_value)?;
+
+                add_to_sum(sum_square, &squared_column_value)?;
 
                 *count += 1;
 
@@ -619,6 +611,33 @@ fn extract_having_aggregates<'a>(aggregate_statement: &'a AggregateStatement) ->
 }
 
 static NULL_VALUE: Value = Value::Null;
+
+/// Adds the value to the running sum; a sum that does not fit its type is an error, not a wrapped number
+fn add_to_sum(sum: &mut Value, value: &Value) -> ExecutionResult<()> {
+    let overflow = Cell::new(false);
+    sum.modify_same_type_numeric_nullable(
+        value,
+        |x, y| {
+            match x.checked_add(y) {
+                Some(result) => { *x = result; }
+                None => { overflow.set(true); }
+            }
+        },
+        |x, y| { *x += y },
+        |x, y| {
+            match x.checked_add(&y) {
+                Some(result) => { *x = result; }
+                None => { overflow.set(true); }
+            }
+        }
+    );
+
+    if overflow.get() {
+        Err(ExecutionError::Expression(EvaluationError::UndefinedOperation))
+    } else {
+        Ok(())
+    }
+}
 
 fn accept_group<'a>(group_key_mapping: &HashMap<ExpressionTreeHash, usize>,
                     having_aggregates: &Vec<(usize, &'a Aggregate)>,
